@@ -256,6 +256,12 @@ Definition c04_check (c : c04case) : bool :=
       (* the declared schema against the real reflector: equal exactly on the fragment *)
       Bool.eqb (inline_enum_rt d i) (same (norm_inline_enum here idx d i))
   | C04Enum e obs refl =>
+      (* the declared enum (norm_enum, from the declaration alone) against the real reflector:
+         equal exactly on the fragment enum_rt (C04_enum_exact) *)
+      match refl with
+      | Ok b => Bool.eqb (enum_rt e) (if renum_eq_dec (norm_enum e) b then true else false)
+      | _ => true
+      end &&
       (if enum_out_eq_dec (write_enum e) obs then true else false) &&
       match read_enum obs, refl with
       | Ok a, Ok b => if renum_eq_dec a b then true else false
